@@ -9,8 +9,8 @@ build || { echo "BUILD FAILED with change" | tee -a $log; exit 1; }
 T=$(ctest --test-dir _build -j8 --timeout 900 2>&1 | grep "tests passed"); echo "tests with change: $T" | tee -a $log
 echo "$T" | grep -q "100% tests passed, 0 tests failed out of 48" || { echo "TESTS FAIL with change" | tee -a $log; exit 1; }
 ( cd demo && timeout 900 bash ./build_and_run.sh >/tmp/demo_with.out 2>&1 ); W=$?; echo "demo with change: exit $W" | tee -a $log
-git stash -q -- SRC || exit 2
+git diff -- SRC > /tmp/verify_mutant_$$.diff; git apply -R /tmp/verify_mutant_$$.diff || exit 2
 build; ( cd demo && timeout 900 bash ./build_and_run.sh >/tmp/demo_without.out 2>&1 ); O=$?; echo "demo without change: exit $O" | tee -a $log
-git stash pop -q
+git apply /tmp/verify_mutant_$$.diff; rm -f /tmp/verify_mutant_$$.diff
 [ $W -ne 0 ] && [ $O -eq 0 ] && { echo "CONFIRMED" | tee -a $log; exit 0; }
 echo "NOT CONFIRMED" | tee -a $log; exit 1
